@@ -25,6 +25,14 @@ CLAIMED = {
              "is validated by the tie only; undefined behaviour invisible to the heap model and the sanitizers is not covered. Known findings K09a (list copy semantics), "
              "K09b (temporary leak), K09c (stale folded length after remove of a run-time value).",
         technique="Lean 4 invariant proof on a heap model + sanitizer/allocation-counter correspondence (S_c)", ref="4/C09"),
+    "C10": dict(
+        text="Lean theorems: the order of hoisted declarations is independent of the order in which the per-branch name sets list their elements once the iteration is "
+             "sorted (the only set-order dependent sites of the transpiler), characterisation of the promoted set, machine-checked counterexample for the unsorted variant "
+             "(defect F9, repaired by a fix: commit); the model tr has no state. Ties: AST inventory of set-valued iterations against a reviewed baseline; model order vs real "
+             "declaration order; real output byte-identical in fresh subprocesses under 8/64 hash seeds and in-process under shuffled histories with repetitions.",
+        note="Trusted: Lean kernel (propext, Classical.choice, Quot.sound); 'no hidden interpreter state' and 'all hash seeds/processes' rest on the behavioural tie over the "
+             "generated and pooled scripts; setscan.py is a heuristic inventory.",
+        technique="Lean 4 permutation-invariance theorem + multi-process hash-seed/history correspondence", ref="4/C10"),
     "C12": dict(
         text="Theorems over the effect model of target() for every scenario (pair valid?, upload?, PlatformIO present?, Servo note?, 10 fault points), proved by kernel "
              "decide; the model is tied to the real target() by an exhaustive differential run of the whole scenario space x 5 scripts with subprocess/tempfile/pathlib "
@@ -39,6 +47,13 @@ CLAIMED = {
         note="Trusted: Lean kernel (propext, Classical.choice, Quot.sound); extract.py; the INI-reader model (tied to configparser differentially); text->lines split, final rstrip, "
              "UTF-8 and 'touches nothing else' rest on the tie (audit hook + listing). Known finding K13a (port with surrounding blanks).",
         technique="Lean 4 theorems + regenerated registry obligation (decide +kernel) + differential ties", ref="4/C13"),
+    "C14": dict(
+        text="Lean theorems over the library bookkeeping model for every multiset of device declarations in the documented positions: requested libraries = included "
+             "headers = instantiated library classes, each library iff a device needs it, no duplicates, nothing without a device; counterexample for a nested Servo. "
+             "Model compared with the real _collect_required_libraries / #include lines / global objects on random device multisets; every sketch also compiled against "
+             "headers that alone define the library classes.",
+        note="Trusted: Lean kernel (propext, Classical.choice, Quot.sound); the script -> (kind, position) abstraction built by the harness; mock library headers.",
+        technique="Lean 4 theorems on the bookkeeping model + differential tie on device multisets (T)", ref="4/C14"),
     "C15": dict(
         text="Lean theorems over the firmware input blocks: handler runs exactly on rising edges of the sampled signal (never held/release/start-up), is_pressed() "
              "is the pass's sample, host click count agrees when the signal starts released; ultrasonic helper: <= 3 attempts, echo*0.0343/2, last-good/400 fallback, "
